@@ -354,3 +354,96 @@ __CPROVER_ensures(__CPROVER_POINTER_OFFSET(*dst__r) >= __CPROVER_POINTER_OFFSET(
 __CPROVER_ensures(__CPROVER_POINTER_OFFSET(*dst__r) <= __CPROVER_POINTER_OFFSET(__CPROVER_old(*dst__r)) + 6 * (__CPROVER_old(*nb__r) - *nb__r))
 __CPROVER_ensures(*nb__r == 0 || !SPEC_NEED_ESCAPE(**src__r))
 """)
+
+# Quote: an unbounded loop-contract proof was attempted (loop invariants on src/dst offsets, DoEscape / CopyAndGetEscapMask /
+# memcpy by contract, pointer re-basing) and did not get through CBMC within 25 min / 24 GB (DESIGN section 8); the function
+# contract below is therefore enforced with the loops unwound up to a stated bound (bounded stand-in).
+UNITS["Quote"] = dict(
+    file=QI, anchor=r"sonic_static_inline char \*Quote\(", rules=SIMD_RULES, nloops=2,
+    contract="""__CPROVER_requires(nb <= MAXLEN && QUOTE_SRC_OK(src, nb))
+/* the reservation made by the serializer: serialize.h Grow(len * 6 + 32 + 3) */
+__CPROVER_requires(__CPROVER_w_ok(dst, 6 * nb + 32 + 3) && __CPROVER_POINTER_OFFSET(dst) == 0 && !__CPROVER_same_object(dst, src))
+__CPROVER_assigns(__CPROVER_object_upto(dst, 6 * nb + 32 + 3))
+/* C09: emitted length is between nb + 2 and 6 * nb + 2, delimited by quotes */
+__CPROVER_ensures(__CPROVER_same_object(__CPROVER_return_value, dst))
+__CPROVER_ensures(__CPROVER_POINTER_OFFSET(__CPROVER_return_value) >= nb + 2 && __CPROVER_POINTER_OFFSET(__CPROVER_return_value) <= 6 * nb + 2)
+__CPROVER_ensures(dst[0] == '"' && __CPROVER_return_value[-1] == '"')
+""")
+
+# ------------------------------------------------------------------ allocator.h (C16)
+AL = "include/sonic/allocator.h"
+UNITS["SONIC_ALIGN"] = dict(file=AL, anchor=r"#define SONIC_ALIGN\(x\)", kind="macro")
+UNITS["alloc.config"] = dict(file=AL, anchor=r"#ifdef SONIC_ADAPTIVE_MEMORYPOOL\n#define SONIC_MEMPOOL_CHUNK_POLICY", kind="span",
+                             end=r"#define SONIC_ALLOCATOR_MIN_CHUNK_CAPACITY SONIC_ALLOCATOR_MAX_CHUNK_CAPACITY\n#endif\n#endif")
+UNITS["ChunkHeader"] = dict(file=AL, anchor=r"struct ChunkHeader \{", kind="struct")
+UNITS["SharedData"] = dict(file=AL, anchor=r"struct SharedData \{", kind="struct")
+UNITS["alloc.sizeof"] = dict(file=AL, anchor=r"static const size_t SIZEOF_SHARED_DATA = ", kind="span", end=r"SONIC_ALIGN\(sizeof\(ChunkHeader\)\);",
+                             no_default_rules=True, rules=[("sizeof-enum", r"static const size_t (\w+) = ([^;]+);", r"enum { \1 = \2 };")], must_fire=["sizeof-enum"])
+UNITS["alloc.fields"] = dict(file=AL, anchor=r"ChunkPolicy cp_;", kind="span", end=r"SharedData\* shared_;")
+UNITS["GetChunkHead"] = dict(file=AL, anchor=r"static inline ChunkHeader\* GetChunkHead\(")
+UNITS["GetChunkBuffer"] = dict(file=AL, anchor=r"static inline uint8_t\* GetChunkBuffer\(")
+for i, pol in enumerate(("Simple", "Adaptive")):
+    UNITS["%sChunkPolicy.ChunkSize" % pol] = dict(
+        file=AL, anchor=r"inline size_t ChunkSize\(", nth=i, cname="ChunkPolicy_ChunkSize", self="ChunkPolicy", fields=["min_chunk_size_"],
+        contract="""__CPROVER_requires(__CPROVER_rw_ok(self, sizeof(*self)) && need_alloc_size >= 1 && need_alloc_size <= ALLOC_MAX + 8 && self->min_chunk_size_ <= ALLOC_MAX)
+__CPROVER_assigns(self->min_chunk_size_)
+/* C16: the chunk that is about to be created can hold the request */
+__CPROVER_ensures(__CPROVER_return_value >= need_alloc_size && __CPROVER_return_value <= ALLOC_MAX + 8 && self->min_chunk_size_ <= ALLOC_MAX)
+__CPROVER_ensures(__CPROVER_return_value == need_alloc_size || __CPROVER_return_value == self->min_chunk_size_)
+""")
+ALLOC_RULES = [
+    ("base-malloc", r"baseAllocator_->Malloc\(", "BaseAllocator_Malloc(baseAllocator_, "),
+    ("base-free", r"baseAllocator_->Free\(", "BaseAllocator_Free(baseAllocator_, "),
+    ("new-base", r"new BaseAllocator\(\)", "BaseAllocator_new()"),
+    ("delete-base", r"\bdelete (\w+);", r"BaseAllocator_delete(\1);"),
+    ("cp-chunksize", r"cp_\.ChunkSize\(", "ChunkPolicy_ChunkSize(&cp_, "),
+    ("if-decl", r"if \((\w+\s*\*)\s*(\w+) =\s*((?:[^()]|\((?:[^()]|\([^()]*\))*\))*)\) \{", r"\1 \2 = \3; if (\2) {"),
+    ("this-dtor", r"this->~MemoryPoolAllocator\(\);", "MemoryPoolAllocator_dtor(self);"),
+    ("return-this", r"return \*this;", "return self;"),
+]
+_MPA = dict(self="MemoryPoolAllocator", fields=["cp_", "baseAllocator_", "shared_"], rules=ALLOC_RULES)
+# representation invariant of a pool (derived from the constructors): shared block valid, head chunk valid with its
+# buffer of `capacity` bytes behind the 24-byte header, size <= capacity, size a multiple of 8, live refcount
+UNITS["MemoryPoolAllocator.AddChunk"] = dict(file=AL, anchor=r"bool AddChunk\(", cname="MemoryPoolAllocator_AddChunk",
+    callmacro="#define AddChunk(c) MemoryPoolAllocator_AddChunk(self, c)", must_fire=["base-malloc", "new-base", "if-decl"], **_MPA)
+UNITS["MemoryPoolAllocator.Malloc"] = dict(file=AL, anchor=r"void\* Malloc\(", after=r"class MemoryPoolAllocator \{", cname="MemoryPoolAllocator_Malloc",
+    callmacro="#define Malloc(n) MemoryPoolAllocator_Malloc(self, n)", must_fire=["cp-chunksize"],
+    contract="""__CPROVER_requires(POOL_WF(self) && size <= ALLOC_MAX)
+__CPROVER_assigns(self->shared_->chunkHead, self->shared_->chunkHead->size, self->shared_->ownBaseAllocator, self->baseAllocator_, self->cp_.min_chunk_size_)
+/* C16: zero-size requests return null and change nothing */
+__CPROVER_ensures(size != 0 || (__CPROVER_return_value == NULL && self->shared_->chunkHead == __CPROVER_old(self->shared_->chunkHead) && self->shared_->chunkHead->size == __CPROVER_old(self->shared_->chunkHead->size)))
+/* C16: a non-null block is 8-byte aligned, lies wholly inside the (possibly new) head chunk right after what was handed out before */
+__CPROVER_ensures(__CPROVER_return_value == NULL || (size != 0 && POOL_WF(self) &&
+    __CPROVER_same_object(__CPROVER_return_value, self->shared_->chunkHead) &&
+    (__CPROVER_POINTER_OFFSET(__CPROVER_return_value) & 7) == 0 &&
+    self->shared_->chunkHead->size >= SONIC_ALIGN(size) &&
+    __CPROVER_POINTER_OFFSET(__CPROVER_return_value) == __CPROVER_POINTER_OFFSET(self->shared_->chunkHead) + SIZEOF_CHUNK_HEADER + (self->shared_->chunkHead->size - SONIC_ALIGN(size)) &&
+    self->shared_->chunkHead->size <= self->shared_->chunkHead->capacity))
+/* either the old head chunk served it (bump), or a fresh chunk was pushed in front of the untouched old head */
+__CPROVER_ensures(__CPROVER_return_value == NULL ||
+    (self->shared_->chunkHead == __CPROVER_old(self->shared_->chunkHead)
+       ? self->shared_->chunkHead->size == __CPROVER_old(self->shared_->chunkHead->size) + SONIC_ALIGN(size)
+       : (self->shared_->chunkHead->size == SONIC_ALIGN(size) && self->shared_->chunkHead->next == __CPROVER_old(self->shared_->chunkHead) &&
+          !__CPROVER_same_object(self->shared_->chunkHead, __CPROVER_old(self->shared_->chunkHead)) &&
+          self->shared_->chunkHead->next->size == __CPROVER_old(self->shared_->chunkHead->size))))
+/* a failed allocation (base allocator returned null) leaves the pool as it was */
+__CPROVER_ensures(__CPROVER_return_value != NULL || (self->shared_->chunkHead == __CPROVER_old(self->shared_->chunkHead) && self->shared_->chunkHead->size == __CPROVER_old(self->shared_->chunkHead->size)))
+""", **_MPA)
+UNITS["MemoryPoolAllocator.Realloc"] = dict(file=AL, anchor=r"void\* Realloc\(", after=r"class MemoryPoolAllocator \{", cname="MemoryPoolAllocator_Realloc",
+    # `GetChunkBuffer(shared_) + head->size - originalSize` forms a pointer below the head chunk when the old block is larger
+    # than what the head chunk has handed out; it is only compared with originalPtr, never dereferenced (observation job)
+    check_disable=["pointer-overflow"],
+    must_fire=["if-decl"], **_MPA)
+
+_MPA_RW = dict(self="MemoryPoolAllocator", fields=["cp_", "baseAllocator_", "shared_"], fields_mode="rewrite", rules=ALLOC_RULES, after=r"class MemoryPoolAllocator \{")
+UNITS["MemoryPoolAllocator.Clear"] = dict(file=AL, anchor=r"void Clear\(", cname="MemoryPoolAllocator_Clear", nloops=1,
+    callmacro="#define Clear() MemoryPoolAllocator_Clear(self)", must_fire=["base-free"], **_MPA_RW)
+UNITS["MemoryPoolAllocator.Capacity"] = dict(file=AL, anchor=r"size_t Capacity\(", cname="MemoryPoolAllocator_Capacity", nloops=1, **_MPA_RW)
+UNITS["MemoryPoolAllocator.Size"] = dict(file=AL, anchor=r"size_t Size\(", cname="MemoryPoolAllocator_Size", nloops=1, **_MPA_RW)
+UNITS["MemoryPoolAllocator.dtor"] = dict(file=AL, anchor=r"~MemoryPoolAllocator\(\) noexcept \{", cname="MemoryPoolAllocator_dtor", rtype="void",
+    must_fire=["base-free", "delete-base"], **_MPA_RW)
+UNITS["MemoryPoolAllocator.copy_assign"] = dict(file=AL, anchor=r"MemoryPoolAllocator& operator=\(const MemoryPoolAllocator& rhs\)", cname="MemoryPoolAllocator_copy_assign",
+    rtype="MemoryPoolAllocator *", must_fire=["this-dtor", "return-this"], **_MPA_RW)
+UNITS["MemoryPoolAllocator.move_assign"] = dict(file=AL, anchor=r"MemoryPoolAllocator& operator=\(MemoryPoolAllocator&& rhs\)", cname="MemoryPoolAllocator_move_assign",
+    rtype="MemoryPoolAllocator *", must_fire=["this-dtor", "return-this"],
+    **dict(_MPA_RW, rules=ALLOC_RULES + [("rvalue-ref", r"MemoryPoolAllocator&& rhs", "MemoryPoolAllocator& rhs")]))
